@@ -153,7 +153,7 @@ class Application():
         if _filter in self.__filters:
             regex = self.__filters[_filter][0]
         elif _filter[:4] == ':re:':     # :re: filter have user defined regex
-            regex = _filter[4:]
+            regex = groups[1][4:]       # as written, case is significant
         else:
             try:
                 regex = self.__filters[_filter][0]
